@@ -1,9 +1,61 @@
-"""B-op-eval (draft)"""
+"""B-op-eval: the evaluation half of C07 (and its C01 clauses): read::op::{Evaluation, OperationIter, Expression}
+(DESIGN.md 6 C07 / C01 "iteration limit", "fixed-capacity stacks"; appendix A.6).  Built on top of B-op (decode layer).
+
+Functions under contract (real text of /repo/src/read/op.rs, extracted on every run)
+  OperationIter::{next, offset_from}, Expression::{operations, evaluation}                          iterator protocol (5.2), views
+  Evaluation::{pop, push}                                                                            NotEnoughStackItems <=> empty, StackFull <=> len == capacity
+  Evaluation::evaluate_one_operation                                                                 the STEP table below: one clause per opcode group of op.OPS
+      (+ 4 WASM sub-forms): "opcode byte(s) X with operands o0.. laid out as DWARF 5 7.7.1 says  ==>  stack / pc / pieces /
+      request are exactly ...", i.e. decode and step are checked end to end against the byte string; binary operators take
+      lhs = second entry, rhs = top; Pick needs depth > index; Bra branches iff the popped value is non-zero, Bra/Skip targets are
+      relative to the end of the 3-byte operation and must land in [0, len] of the current expression; every suspending
+      operation returns the exact request (register + base type, address/size/space/base type, index + relocate flag,
+      entry-value expression view, parameter / call reference, TLS index) and the continuation that belongs to it;
+      location-completing operations return the exact Location; pieces push exactly one Piece (Empty iff the stack is empty).
+  Evaluation::{new_in, new, set_initial_value, set_object_address, set_max_iterations, value_result, as_result}
+  Evaluation::{end_of_expression, evaluate_internal, evaluate, resume_with_* (12)}                  state machine over the public ghost mirror
+      `Phase`: each resume_with_x *requires* the matching waiting phase (documented panic otherwise) or the Failed phase, pushes
+      exactly the supplied answer (tagged mid-point assertions: register value + offset in the value's type, frame base wrapping
+      add, call enters the callee and saves (pc, bytecode), base type: parse / convert / reinterpret), Ok(Complete) <=> phase
+      Complete with at least one piece and nothing left to run, Ok(request) => phase is the continuation of that request, a
+      completed location description is always consumed into a piece or an error (ghost counter `owed`), call return restores
+      the innermost saved (pc, bytecode); ITERATION LIMIT: with max_iterations == Some(m) the counter never exceeds
+      max(old, m) + 1 and a run that returns Ok never went past m -- one loop iteration = one evaluate_one_operation plus at
+      most one extra Operation::parse (visible in the text: the loop body has exactly these two decode sites).
+
+FINDING reported by this batch (exit 1 on the pinned tree; native reproducer native/src/bin/f_op_eval_1.rs):
+  F-op-eval-1  `self.iteration += 1` in evaluate_internal: possible arithmetic overflow.  The u32 counter is incremented
+      before the limit test; with no limit (the default) or with the limit u32::MAX a looping expression (`DW_OP_skip -3`)
+      overflows it after 2^32 operations -> panic in an overflow-checked build.  The tagged assertion
+      [C01:iteration-counter-no-overflow-with-limit] proves the complement: limit m < u32::MAX and counter <= m on entry => no overflow.
+
+Assumed (TRUSTED; everything else in the generated file is verified):
+  ArrayVec model (struct ArrayVec, ArrayVec::{new, try_push, pop}, Default::default, Deref::deref, Debug::fmt,
+      axiom_arrayvec_len `len <= capacity`)  -- the real type is `unsafe` (MaybeUninit, raw pointers): Kani K-AVEC.
+      `Vec`-backed storage is modelled with capacity usize::MAX (allocation failure aborts, outside the model).
+  Value::{parse, to_u64, from_u64, convert, reinterpret, abs, neg, not, add, sub, mul, div, rem, and, or, xor, shl, shr, shra,
+      eq, ge, gt, le, lt, ne} are contract-only (`res == value_f(..)`, uninterpreted spec functions): float casts / to_bits are
+      outside Verus; that the bodies are the DWARF arithmetic modulo the address mask is Kani K-VALUE.  Value::value_type is verified.
+  inherited from B-core / B-op: verif_unreachable, Result::and_then, reader_clone (R-CLONE: a cloned reader has the same view).
+Logged rewrites: R-CLOSURE-ENS (`.map_err(|_| Error::StackFull)` gets the verified annotation `ensures e == Error::StackFull`; an
+  un-annotated closure has no spec in Verus), R-CLONE (5 reader clones), R-ASSERT for the message-less `panic!()` in evaluate.
+Dropped: Evaluation::result (ArrayVec::into_vec is Vec::from_raw_parts), Expression's other impls, Iterator/FallibleIterator adaptors.
+
+Not decided here: that a step never fails *spuriously* (the decode contract of B-op says nothing about when parse succeeds, so
+  every step clause is "Ok => exact effect"; a mutant that only adds error returns is caught only where it breaks a built-in
+  obligation); the error *value* of a failed step other than pop/push's own; termination of evaluate_internal without a limit
+  (non-termination on a looping program is the documented behaviour; the function carries exec_allows_no_decreases_clause and
+  the bound is proved on the counter instead); errors returned by resume_with_* and by the initial-value push are not latched
+  into EvaluationState::Error (only errors of evaluate's run are) -- observed, not a property clause; whole-program equality
+  with a reference interpreter (induction over the step contract, not mechanised); Value arithmetic (K-VALUE).
+"""
 from lib import *
 from batches import core
 from batches import op
 
+# names after `external_body` in the generated file; `new`/`pop`/`default`/`deref`/`fmt`/`try_push` are the ArrayVec model's, `parse` is Value::parse
 TRUSTED = list(op.TRUSTED) + ['ArrayVec', 'axiom_arrayvec_len', 'new', 'try_push', 'pop', 'default', 'deref', 'fmt']
+# evaluate_one_operation: ~90 clauses x ~130 exits (about a third of Operation::parse's resource count); same limit as B-op
 VERUS_ARGS = ['--rlimit', '40']
 RETRY_RLIMIT = 120
 MULTIPLE_ERRORS = 6
@@ -252,13 +304,13 @@ def step_clauses():
     return out, '\n\n'.join(fns)
 
 
-def populate(ctx, sk, stage=9):
+def populate(ctx, sk):
     opsrc = Source('read/op.rs', ctx)
     val = Source('read/value.rs', ctx)
     rmod = Source('read/mod.rs', ctx)
 
     # ---- read::util  (model)
-    sk.mods['read']['uses'] += '\npub use self::value::*;\npub mod util_reexport {}'
+    sk.mods['read']['uses'] += '\npub use self::value::*;'
     sk.module('read::util', 'use vstd::prelude::*;')
     sk.add('read::util', UTIL_MODEL, label='util-model')
     sk.add('read', rmod.item(r'^pub struct StoreOnHeap;').clean())
@@ -313,9 +365,11 @@ def populate(ctx, sk, stage=9):
 
     # -- 1. Expression / OperationIter
     ex = opsrc.item(r'^impl<R: Reader> Expression<R> \{', label='Expression')
-    ex.keep_only(['operations'])
+    ex.keep_only(['evaluation', 'operations'])
     ex.clean()
     ex.own(OWN)
+    ex.splice('evaluation', ret='res', requires=['[C07:valid-encoding] valid_address_size(encoding.address_size)'],
+              ensures=['[C10:view][C07:new-state] res.sp_pc() == self.0.rv() && res.sp_bytecode() == self.0.rv() && res.sp_phase() == Phase::Start(None) && res.sp_wf() && res.sp_max_iterations() is None'])
     ex.splice('operations', ret='res', ensures=['[C10:view][C07:iter-start] res.inp() == self.0.rv() && res.enc() == encoding'])
     sk.add('read::op', ex)
     oi = opsrc.item(r'^impl<R: Reader> OperationIter<R> \{', label='OperationIter').clean()
@@ -334,7 +388,6 @@ def populate(ctx, sk, stage=9):
     sk.add('read::op', oi)
 
     ev = opsrc.item(r'^impl<R: Reader, S: EvaluationStorage<R>> Evaluation<R, S> \{', label='Evaluation')
-    ev.drop([])
     # R-CLOSURE-ENS: an un-annotated closure has no specification in Verus; the error constructor closures get the
     # (verified) annotation `ensures e == <their body>` so that "StackFull exactly when full" can be stated
     ev.custom('R-CLOSURE-ENS', '.map_err(|_| Error::StackFull)', '.map_err(|_verif_unused| -> (e: Error) ensures e == Error::StackFull { Error::StackFull })', count=-1)
@@ -408,7 +461,7 @@ def populate(ctx, sk, stage=9):
         '[C07:end-of-expression] old(self).pc.rv().len > 0 ==> final(self).pc == old(self).pc && final(self).bytecode == old(self).bytecode && final(self).expression_stack@ == old(self).expression_stack@',
         # DW_OP_call*: a finished callee returns to the saved (pc, bytecode) of its caller, innermost first
         '[C07:call-return] ' + EOE_INV % (('final(self)',) * 6)],
-        loops={0: 'invariant wf(*self), frame_eoe(*old(self), *self), ' + EOE_INV % (('self',) * 6) + ',\n decreases self.expression_stack@.len()'})
+        loops={0: 'invariant wf(*self), frame_eoe(*old(self), *self),\n ' + EOE_INV % (('self',) * 6) + ', // [C07:call-return]\n decreases self.expression_stack@.len()'})
 
     E_POST = [
         '[C07:eval-wf] final(self).sp_wf() && final(self).sp_config_same(old(self))',
@@ -427,8 +480,9 @@ def populate(ctx, sk, stage=9):
               ensures=E_POST + ['res is Err ==> final(self).state == old(self).state',
                                 '[C07:eval-value-result] res is Ok && final(self).value_result != old(self).value_result ==> (final(self).value_result matches Some(v) && '
                                 '(value_to_u64(v, old(self).addr_mask) matches Ok(addr) && final(self).result@.last() == Piece::<R, usize> { size_in_bits: None, bit_offset: None, location: Location::Address { address: addr } }))'],
-              loops={0: 'invariant wf(*self), config_same(*old(self), *self), self.state == old(self).state, self.value_result == old(self).value_result, self.iteration >= old(self).iteration, '
-                        '(self.max_iterations matches Some(m) ==> self.iteration <= (if old(self).iteration > m { old(self).iteration } else { m })), owed == 0'},
+              loops={0: 'invariant wf(*self), config_same(*old(self), *self), self.state == old(self).state, self.value_result == old(self).value_result, self.iteration >= old(self).iteration,\n'
+                        '(self.max_iterations matches Some(m) ==> self.iteration <= (if old(self).iteration > m { old(self).iteration } else { m })), // [C01:iteration-limit][C07:iteration-limit]\n'
+                        'owed == 0, // [C07:complete-location-consumed]\n'},
               before=[('while !self.end_of_expression()', 'let ghost mut owed: int = 0;'),
                       ('self.iteration += 1;', 'assert(self.max_iterations matches Some(m) && m < u32::MAX && old(self).iteration <= m ==> self.iteration < u32::MAX); // [C01:iteration-counter-no-overflow-with-limit]')],
               after=[('OperationEvaluationResult::Complete { location } => {', 'proof { owed = 1; } // a completed location description must become a piece (or an error)'),
@@ -471,6 +525,15 @@ def populate(ctx, sk, stage=9):
                       'EvaluationState::Waiting(EvaluationWaiting::Reinterpret) => old(self).stack@.len() >= 1 && value_reinterpret(old(self).stack@.last(), base_type, self.addr_mask) == Ok::<Value, Error>(value) && self.stack@ =~= old(self).stack@.drop_last().push(value), '
                       '_ => false }); // [C07:resume-base-type]')], canary=True)
     sk.add('read::op', ev)
+    # Evaluation::new (heap storage): `result(self)` is dropped (ArrayVec::into_vec is `unsafe` Vec::from_raw_parts: K-AVEC)
+    evn = opsrc.item(r'^impl<R: Reader> Evaluation<R> \{', label='Evaluation(heap)')
+    evn.keep_only(['new'])
+    evn.clean()
+    evn.own(OWN)
+    evn.splice('new', ret='res', requires=['[C07:valid-encoding] valid_address_size(encoding.address_size)'],
+               ensures=['[C10:view][C07:new-state] res.sp_pc() == bytecode.rv() && res.sp_bytecode() == bytecode.rv() && res.sp_phase() == Phase::Start(None) && res.sp_stack().len() == 0 && res.sp_wf() '
+                        '&& res.sp_max_iterations() is None && res.sp_iteration() == 0 && res.sp_addr_mask() == ones(encoding.address_size)'])
+    sk.add('read::op', evn)
     sk.add('read::op', core.rd('specs/op_eval.rs'), label='op-eval-spec')
     sk.add('read::op', '// ---- generated from the table STEP (vx/batches/op_eval.py)\n' + step_fns, label='op-eval-step-spec')
     return sk
